@@ -42,7 +42,7 @@ ASSUMPTIONS = [
 REQUIRED = ["branches_checked", "paths_checked", "tips_checked", "furcations_checked",
             "node_predicates_checked", "node_branch_checked", "branch_tree_checked",
             "branch_tree_memory_probed", "longest_path_checked", "root_one_child_trees",
-            "derived_trees_checked", "negative_position_handles",
+            "derived_trees_checked", "negative_position_handles", "relinked_through_callers_array",
             "tap_get_branches", "tap_from_tree"]
 FLOOR = {"quick": 550, "thorough": 10000}
 SHARDS = {"quick": 8, "thorough": 16}
@@ -87,6 +87,37 @@ def _exec(ctx, case):
         if not cands:
             return
         t2.node(k).pid = int(cands[int(rng.integers(0, len(cands)))])
+    elif derive == "edit-callers-array" and n >= 3:
+        # the tree was built on the caller's own parent array, handed over as a read-only view;
+        # the caller then re-links a node in *its* array: the tree shows the new topology
+        from swcgeom.core import Tree
+
+        kw = {k: np.array(v, copy=True) for k, v in spec.items()}
+        base = kw["pid"].astype(np.int32)
+        ro = base.view()
+        ro.setflags(write=False)
+        kw["pid"] = ro
+        t2 = Tree(n, **kw)
+        if not np.shares_memory(t2.pid(), base):
+            return ctx.skip("the constructor copied the caller's parent array")
+        t2.get_branches(), t2.get_tips(), t2.get_furcations()
+        for i in range(n):
+            nd = t2.node(i)
+            nd.is_tip(), nd.is_furcation(), nd.children()
+            if i and not nd.is_furcation():
+                try:
+                    nd.branch()
+                except Exception:
+                    pass
+        pid = base.astype(np.int64)
+        ch = topo.children_lists(pid)
+        k = int(rng.integers(1, n))
+        sub = set(topo.descendants(ch, k))
+        cands = [j for j in range(n) if j not in sub and j != pid[k]]
+        if not cands:
+            return
+        base[k] = int(cands[int(rng.integers(0, len(cands)))])
+        ctx.count("relinked_through_callers_array")
     elif derive == "sort":
         t2 = sort_tree(tree)
     else:
@@ -305,7 +336,8 @@ def run(ctx):
                 rc = G.random_recipe(rng, max_n=G.size_ladder(ctx, k, 10, 45, 300), extras=0)
             case = {"tree": rc}
             if k % 3 == 2:
-                case["derive"] = str(rng.choice(["redirect", "copy-edit", "edit-in-place", "sort"]))
+                case["derive"] = str(rng.choice(["redirect", "copy-edit", "edit-in-place", "sort",
+                                                   "edit-callers-array"]))
                 case["dseed"] = int(rng.integers(0, 2**31 - 1))
             ctx.case(case, nontrivial=rc["n"] >= 3, klass=rc["shape"] + "/" + rc["numbering"])
             execute(ctx, case)
